@@ -317,6 +317,8 @@ def run(prop, tier):
             if gc["big"]:
                 sub = os.path.join(scratch, "beh_%d_big.jsonl" % i)
                 k = 400 if tier == "quick" else 4000
+                if "-crash" in gc["flags"] and tier != "quick":
+                    k = 1000   # every clean / save of these is replayed once per crash point, at 400 headers per block
                 with open(sub, "w") as fh:
                     fh.write("\n".join(behs[:k]) + "\n")
                 runs.append((gc["big"], sub, None))
@@ -328,7 +330,7 @@ def run(prop, tier):
                 if "-probe" in gc["flags"] or "-probeend" in gc["flags"]:
                     locout = os.path.join(scratch, "loc_%d_%d.ndjson" % (i, S))
                     env["VERIF_LOCOUT"] = locout
-                rc, out, err = run_harness(binary, args, env=env, timeout=3000)
+                rc, out, err = run_harness(binary, args, env=env, timeout=3000 if tier == "quick" else 7200)
                 if rc != 0 or not out.strip():
                     raise Infra("harness failed rc=%s: %s" % (rc, err[-2000:]))
                 r = json.loads(out)
